@@ -177,6 +177,27 @@ def oracleStream (p : Proto) (units : List U) (closed : Bool) (stream : Bytes) :
       | none => "bad:stream-not-well-framed"
       | some got => if wholeUnits us got then "ok" else "bad:not-a-subsequence-of-whole-units"
 
+/-- "is itself disconnected once the periodic liveness sweep fires": in the implementation's own event tokens, when
+    every write between two consecutive liveness checks (`A`) was refused by the full queue while the writer stayed
+    blocked (`w-q<n>b1`), the second check must report the subscriber dead (`a0`) -/
+def oracleSweep (toks : List String) : String :=
+  -- a token carries the queue status `q<n>b<0|1>` (after a leading `w-` for a write); a write is REFUSED when the writer
+  -- was and stays blocked and the queue is as long as before
+  let status (t : String) : Option String :=
+    let body := if t.startsWith "w" then (t.drop 2).toString else t
+    if body.startsWith "q" then some body else none
+  let r := toks.foldl (fun (acc : Bool × Bool × Nat × Bool × Option String) t =>
+    -- (a liveness check was seen, only refused writes since, how many, verdict ok, last status)
+    let (seenA, quiet, n, ok, last) := acc
+    if t == "a1" || t == "a0" then
+      (true, true, 0, ok && !(seenA && quiet && n > 0 && t == "a1"), last)
+    else
+      let st := status t
+      let refused := t.startsWith "w" && st.isSome && st == last && t.endsWith "b1"
+      if refused then (seenA, quiet, n + 1, ok, st) else (seenA, false, n, ok, if st.isSome then st else last))
+    (false, true, 0, true, none)
+  if r.2.2.2.1 then "ok" else "bad:stalled-subscriber-reported-alive-after-a-sweep-without-progress"
+
 /-! ### group level -/
 
 structure GS where
@@ -295,7 +316,11 @@ def handleC15 : Handler := fun comp a impl =>
     let (d, toks) := runSess subItems pr (nat! cap) fs
     let model := String.intercalate "," toks ++ "|" ++ (if d.s.conn.closed then "1" else "0") ++ "|" ++ Hex.ofBytes d.s.conn.received
     let v := match splitOnChar impl '|' with
-      | [_, cl, h] => oracleStream pr (fs.filterMap (unitOf pr)) (cl == "1") (hex! h)
+      | [tk, cl, h] =>
+        let v1 := oracleStream pr (fs.filterMap (unitOf pr)) (cl == "1") (hex! h)
+        if v1.startsWith "bad" then v1 else
+        let v2 := oracleSweep (splitOnChar tk ',')
+        if v2.startsWith "bad" then v2 else v1
       | _ => "bad:unparsable"
     some { model := model, verdict := v }
   | "q.sess0", [p, cap, evs] =>
